@@ -195,6 +195,20 @@ func (cs *compSess) status() string {
 		return "hang"
 	}
 	if d {
+		if pre == "" && !cs.pinned {
+			// a thinker of the CURRENT invocation panicked: the real process is gone in the middle of the server's game.
+			// The model of the code as it is prints plain `tpanic`; the cause keeps known findings apart from new crashes.
+			cause := strings.Map(func(r rune) rune {
+				if r == ' ' || r == '\t' || r == '\n' {
+					return '_'
+				}
+				return r
+			}, cs.c.LastPanic)
+			if len(cause) > 60 {
+				cause = cause[:60]
+			}
+			return "crash:" + cause + ":tpanic"
+		}
 		return pre + "tpanic"
 	}
 	return pre + cs.b.status()
